@@ -144,6 +144,7 @@ var vC09Offers = [][]string{
 	{"html", "json", "txt"},
 	{"text/plain;format=flowed", "text/html"},
 	{"application/json", "text/plain"},
+	{"application/json;v=1", "text/html;format=flowed", "text/html"},
 }
 
 func vMimeOf(offer string) (mime, params string) {
@@ -210,8 +211,12 @@ func VH_C09_offer(caseID int) {
 		}
 		r.typ = vC09Types[vChoice("type"+string(rune('0'+k)), ntypes)]
 		hdr += r.typ
-		if (nr == 1 || k == 0) && vChoice("param"+string(rune('0'+k)), 2) == 1 {
+		if (nr == 1 || k == 0 || (caseID/4 == 4 && k == 1)) && vChoice("param"+string(rune('0'+k)), 2) == 1 {
 			r.param = "format=flowed"
+			if k == 1 {
+				// a second range with a different parameter (offer list 4)
+				r.param = "v=1"
+			}
 			r.nparam = 1
 			hdr += ";" + r.param
 		}
